@@ -20,7 +20,7 @@ from .. import cache, lexrec, mutate, sq
 from . import c01
 
 VOCAB = ["SELECT", "FROM", "WHERE", "a", "b", "1", "'s'", "(", ")", ",", ";", "*", "=", "AND", "JOIN", "AS"]
-C02_CLAUSES = {"NeverRaises_parse", "NoTreeWithoutPRS", "UnparsableIffPRS", "LeafNotAToken", "TokenDropped", "LeafEqualsToken"}
+C02_CLAUSES = {"NeverRaises_parse", "NoTreeWithoutPRS", "TreeKeepsUnmatchedCode", "UnparsableIffPRS", "LeafNotAToken", "TokenDropped", "LeafEqualsToken"}
 
 
 def build_items(tier: str, seed: int, seqs: List[List[int]], skels: List[List[str]]):
@@ -58,6 +58,8 @@ def sig_of(t: Dict[str, Any], r: Dict[str, Any]) -> Dict[str, Any]:
     ev = t["events"][r["step"] - 1] if r["step"] <= len(t["events"]) else {}
     if ev.get("ev") == "Parse":
         sig["has_unparsable"] = bool(ev.get("nunparsable"))
+        if not ev.get("tree"):
+            sig["prs_kinds"] = ",".join(ev.get("prs_kinds", []))
         sig["templated"] = not t["events"][0].get("untemplated", True)
         if r["clause"] in ("SpanIsHull", "ChildOrder", "NoNonCodeEnds") and r.get("at"):
             sig["node_type"] = ev["nodes"][r["at"] - 1][0]
